@@ -68,6 +68,12 @@ type JSONProgCase struct {
 	Prog px.ProgCase
 }
 
+type EqProgCase struct {
+	T    hs.Type
+	A, B hs.WV
+	Prog px.ProgCase
+}
+
 type DisplayCase struct {
 	T hs.Type
 	V hs.WV
@@ -79,6 +85,7 @@ func init() {
 	pk.Reg("json", checkJSON)
 	pk.Reg("json-prog", checkJSONProg)
 	pk.Reg("display", checkDisplay)
+	pk.Reg("eq-prog", checkEqProg)
 }
 
 // ---------------------------------------------------------------------------------------------
@@ -1269,6 +1276,12 @@ func (e *emitter) expr(v hs.Value, t hs.Type, top bool) string {
 		return hs.QuoteStr(string(x))
 	case hs.NullV:
 		return "null"
+	case hs.RangeV:
+		op := ".."
+		if x.Incl {
+			op = "..="
+		}
+		return "(" + e.expr(hs.IntV(x.Start), hs.TInt, false) + op + e.expr(hs.IntV(x.End), hs.TInt, false) + ")"
 	case *hs.ListV:
 		if t.K != hs.KList {
 			t = dynType(v)
@@ -1487,4 +1500,79 @@ func isNullish(v hs.Value) bool {
 		return x.Inner == nil
 	}
 	return false
+}
+
+// ---------------------------------------------------------------------------------------------
+// sub-check "eq-prog": == and != inside programs, on both backends
+
+func buildEqProg(a, b hs.Value, t hs.Type) string {
+	e := &emitter{}
+	ea := e.expr(a, t, true)
+	eb := e.expr(b, t, true)
+	var sb strings.Builder
+	sb.WriteString("fn main() {\n")
+	for _, l := range e.pre {
+		sb.WriteString(l + "\n")
+	}
+	fmt.Fprintf(&sb, "    let a: %s = %s;\n", t.Src(), ea)
+	fmt.Fprintf(&sb, "    let b: %s = %s;\n", t.Src(), eb)
+	sb.WriteString("    println(a == b);\n    println(b == a);\n    println(a != b);\n    println(a == a);\n")
+	fmt.Fprintf(&sb, "    println(%q);\n", secMark)
+	sb.WriteString("    println([a]);\n")
+	sb.WriteString("}\n")
+	return sb.String()
+}
+
+func checkEqProg(c EqProgCase) *pk.Failure {
+	a, b := c.A.V, c.B.V
+	resp := px.Pool().Exec(c.Prog.Request("vm", "tree"))
+	if f := px.SandboxFailure("eq-prog", resp); f != nil {
+		f.Sig = "eq-prog:" + f.Sig + ":" + pairClass(a, b)
+		f.Msg += fmt.Sprintf("\n  a = %s\n  b = %s\n%s", show(a), show(b), px.ProgText(c.Prog))
+		return f
+	}
+	if resp.Inconclusive {
+		pk.Inconclusive()
+		return nil
+	}
+	ctx := fmt.Sprintf("type %s\n  a = %s\n  b = %s\n%s", c.T.Canon(), show(a), show(b), px.ProgText(c.Prog))
+	if !resp.Accepted {
+		msg := ""
+		for _, d := range append(resp.SyntaxErrors, resp.ErrorDiags()...) {
+			msg += fmt.Sprintf("%s: %s @%d:%d\n", d.Level, d.Message, d.Span.Start.Line, d.Span.Start.Column)
+		}
+		return pk.Failf("eq-prog", "prog-rejected:"+msgClass(msg), "the analyzer rejected the program:\n%s%s", msg, ctx)
+	}
+	want := hs.Equal(a, b)
+	exp := fmt.Sprintf("%v\n%v\n%v\ntrue\n", want, want, !want)
+	shown := map[string]string{}
+	var fails []*pk.Failure
+	for _, be := range []string{"vm", "tree"} {
+		run := resp.Run(be)
+		if run == nil || run.CompileErr != "" || run.InitPanic != "" {
+			fails = append(fails, pk.Failf("eq-prog", "eq-prog:"+be+":no-run", "no usable run on %s\n%s", be, ctx))
+			continue
+		}
+		secs := sections(run.Writes)
+		cls, kind, msg := px.OutcomeClass(run.Outcome)
+		if msg == "" {
+			msg = run.Outcome.Message
+		}
+		if cls != "ok" || len(secs) != 2 {
+			fails = append(fails, pk.Failf("eq-prog", fmt.Sprintf("eq-prog:%s:%s/%s:%s:%s", be, cls, kind, msgClass(msg), pairClass(a, b)),
+				"[%s] comparing same-typed values ended with %s/%s %q, output %q\n%s", be, cls, kind, run.Outcome.Message, strings.Join(run.Writes, ""), ctx))
+			continue
+		}
+		shown[be] = secs[1]
+		if secs[0] != exp {
+			fails = append(fails, pk.Failf("eq-prog", "eq-prog:"+be+":"+pairClass(a, b),
+				"[%s] (a == b, b == a, a != b, a == a) printed %q, the structural contents say %q\n%s", be, secs[0], exp, ctx))
+		}
+	}
+	if va, ok := shown["vm"]; ok {
+		if ta, ok := shown["tree"]; ok && va != ta && !(multiKey(a) && sameLines(va, ta)) {
+			fails = append(fails, pk.Failf("eq-prog", "display-differs:prog:"+displayFeature(a), "println(a) differs between the backends:\n  vm:   %q\n  tree: %q\n%s", va, ta, ctx))
+		}
+	}
+	return pick(fails)
 }
